@@ -1231,3 +1231,68 @@ theorem subsetTime_spec5 (null : α) (sh : Shp) (hc : Consistent sh) (h5 : sh.nd
         exact ⟨hval, fun s v hs hv' => hlk s v hs hv'⟩
 
 end Total
+
+/-! ### the remaining conversion shape: 5-D with a single time point -/
+
+namespace Total
+variable {α : Type} [DecidableEq α]
+
+/-- **C01, unconditionally (5-D result with a single time point, shape (x,y,z,1,V)):** the volumes
+    are merged directly along the vector axis -/
+theorem convert_total_5d_t1 (null : α) (S V : Nat) (hS : 0 < S) (hV : 0 < V)
+    (val : Nat → Nat → Option α) :
+    ∃ (vol : Nat → KeyState α) (r : KeyState α),
+      (∀ v, v < V →
+        mergeSliceK null ⟨3, 1, 1, 1, true, false, false⟩
+          ((List.range S).map fun s => fileKS (val s v)) = .ok (vol v)) ∧
+      mergeVecK null ⟨5, S, 1, 1, true, false, true⟩ ⟨3, S, 1, 1, true, false, false⟩
+          ((List.range V).map vol) = .ok r ∧
+      ∀ s v, s < S → v < V →
+        lookupKS null ⟨5, S, 1, V, true, false, true⟩ r s 0 v = some ((val s v).getD null) := by
+  let volE := fun v => mergeSliceK null ⟨3, 1, 1, 1, true, false, false⟩
+      ((List.range S).map fun s => fileKS (val s v))
+  have hvolE : ∀ v, ∃ r, volE v = .ok r := by
+    intro v
+    obtain ⟨a, rest, hl, _⟩ := range_map_cons S hS (fun s => fileKS (val s v))
+    show ∃ r, mergeSliceK null _ ((List.range S).map fun s => fileKS (val s v)) = .ok r
+    rw [hl]
+    apply mergeSliceK_ok null _ consistent3
+    intro b hb
+    rw [← hl] at hb
+    obtain ⟨s, _, rfl⟩ := List.mem_map.mp hb
+    exact fileKS_valid _
+  let vol := fun v => okOr (none : KeyState α) (volE v)
+  have hvol : ∀ v, volE v = .ok (vol v) := fun v => eq_ok_okOr _ _ (hvolE v)
+  have hvolValid : ∀ v, ValidK (⟨3, S, 1, 1, true, false, false⟩ : Shp) (vol v) := by
+    intro v
+    have := mergeSlice_valid null ⟨3, 1, 1, 1, true, false, false⟩ consistent3
+      ((List.range S).map fun s => fileKS (val s v))
+      (by intro b hb; obtain ⟨s, _, rfl⟩ := List.mem_map.mp hb; exact fileKS_valid _)
+      (vol v) (hvol v)
+    simpa using this
+  have hin : ∀ b, b ∈ (List.range V).map vol → ValidK (⟨3, S, 1, 1, true, false, false⟩ : Shp) b := by
+    intro b hb
+    obtain ⟨v, _, rfl⟩ := List.mem_map.mp hb
+    exact hvolValid v
+  have hfinE : ∃ r, mergeVecK null ⟨5, S, 1, 1, true, false, true⟩ ⟨3, S, 1, 1, true, false, false⟩
+      ((List.range V).map vol) = .ok r := by
+    obtain ⟨a, rest, hl, _⟩ := range_map_cons V hV vol
+    rw [hl]
+    apply mergeVecK_ok null ⟨5, S, 1, 1, true, false, true⟩ ⟨3, S, 1, 1, true, false, false⟩
+      hS (Nat.lt_succ_self 0) rfl rfl rfl (fun h => by cases h) rfl rfl rfl rfl
+      (Or.inl ⟨rfl, rfl⟩) a rest
+    intro b hb
+    rw [← hl] at hb
+    exact hin b hb
+  obtain ⟨r, hr⟩ := hfinE
+  refine ⟨vol, r, fun v _ => hvol v, hr, ?_⟩
+  intro s v hs hv
+  have := mergeVec_lookup null ⟨5, S, 1, 1, true, false, true⟩ ⟨3, S, 1, 1, true, false, false⟩
+    hS (Nat.lt_succ_self 0) rfl rfl rfl (fun h => by cases h) rfl rfl rfl rfl (Or.inl ⟨rfl, rfl⟩)
+    _ hin r hr v s 0 (by simpa using hv) hs (Nat.lt_succ_self 0)
+  simp only [List.length_map, List.length_range] at this
+  rw [this]
+  simp only [List.getElem?_map, List.getElem?_range hv, Option.map_some, Option.getD_some]
+  exact convert_lookup_key_3d null S hS (fun s => val s v) (vol v) (hvol v) s hs
+
+end Total
